@@ -108,6 +108,7 @@ func (V *Verifier) VerifyLemma(l *Lemma) []*Obligation {
 		out = append(out, &Obligation{Name: fmt.Sprintf("%s/ensures#%d", name, i+1), Func: name, Kind: "lemma", Props: l.Props, Hyps: hyps, Goal: wrapSeqEq(cj), Hints: hints,
 			Detail: "lemma " + l.Name})
 	}
+	out = append(out, &Obligation{Name: name + "/canary(hypotheses-satisfiable)", Func: name, Kind: "canary", Canary: true, Hyps: hyps, Goal: False, Detail: "the lemma's hypotheses (incl. induction hypothesis) are not contradictory"})
 	if l.Induct != nil {
 		out = append(out, &Obligation{Name: name + "/measure-nonneg", Func: name, Kind: "lemma", Props: l.Props, Hyps: []*Term{req}, Goal: Le(IntC(0), m), Detail: "induction measure is non-negative"})
 	}
